@@ -356,6 +356,8 @@ def vec_forms(N, L):
         fs.append(('dot(M,C3)', lambda x: algopy.dot(Mx(x), C32)))
         fs.append(('dot(C3,V)', lambda x: algopy.dot(C3, x * cvec(N))))
         X3 = lambda x: (x * 1.0) * C3 + algopy.reshape(x * cvec(N), (N, 1, 1))
+        fs.append(('dot(V*V,dot(dot(V,C3),V))', lambda x: algopy.dot(x * x, algopy.dot(algopy.dot(x, C3), x)) * cvec(2)))
+        fs.append(('dot(dot(M,C3),V)', lambda x: algopy.dot(algopy.dot(Mx(x), C3), x * cvec(N))))
         fs.append(('T3*X3', lambda x: X3(x).T * X3(x)))
         fs.append(('transpose(T3)', lambda x: algopy.transpose(X3(x)) * C3))
 
